@@ -115,6 +115,23 @@ CLAIMS["C11"] = (
 NOT_APPLICABLE = {
 }
 
+# clauses added in round 3 (appended to the level text of the property)
+EXTRA = {
+    "C01": " Round 3: also evaluates the sibling rules C02.R3/R4/R5/R11/R12 (bookkeeping whose corruption places an object outside its slab or over a live one).",
+    "C02": " Round 3: no slab index, scan bound or iterator cursor derives from an object count (R12); also evaluates C01.R2/R7/R9 and C04.R4/R3-premise.",
+    "C03": " Round 3: no decision taken under one acquisition of the pool mutex guards an action under a later one (check-then-act, R6); shrink keeps live slabs (R7) and counts are not positions (R8); also evaluates C04.R5 and C02.R2/R3/R4/R7.",
+    "C04": " Round 3: the excused pre-initialiser writes are self-consistent (R3 premise); also evaluates C02.R1/R4/R5 (dropper armed only after the initialiser, counters after it).",
+    "C05": " Round 3: compare_exchange_weak only inside a retry loop (R10); a literal Pending only on the success side of the CAS to AWAITING (R11); also evaluates C06.R3/R6/R7.",
+    "C06": " Round 3: the endpoint layer does nothing with its event reference after the sender's finishing transition returned except release_event (R3 extension); also evaluates C05.R7/R9/R10.",
+    "C07": " Round 3: the endpoint layer (LocalSenderCore send / Drop) does nothing with its event reference after the finishing transition returned except release_event.",
+    "C08": " Round 3: all four poll_wait return Pending only behind register(.., waker of this poll) (R9); the thread-safe auto-reset poll makes a second consumption attempt only after the first returned false (R10).",
+    "C09": " Round 3: nothing but None leaves take_all around the quota reduction; the thread-availability pass tests every candidate on every path.",
+    "C10": " Round 3: thread_processors answers from the full inventory, never from the quota-limited set (R7); also evaluates C09.R5 (the consumer of the affinity read-back).",
+    "C12": " Round 3: the per-thread cleanup always takes the blocking write lock and reaches the removal once the lock is taken (R8b).",
+    "C19": " Round 3: the reused per-thread codec state is reset unconditionally before every use (R6).",
+    "C20": " Round 3 adds two shape clauses about order statistics: median_in_place reads its middle positions from a totally sorted slice (R5); benjamini_hochberg sorts and then scans EVERY ordered p-value keeping the largest passing rank, with no exit before the scan except for empty input (R6). Numerical exactness remains undecided.",
+}
+
 PENDING = "static check not implemented yet in this round (planned, see DESIGN.md section 5); not claimed until it exists"
 
 ALL = [f"C{i:02d}" for i in range(1, 21)]
@@ -126,6 +143,8 @@ def main():
         if pid not in CLAIMS:
             continue
         tech, text, note, ref = CLAIMS[pid]
+        text = text + EXTRA.get(pid, "")
+        note = note + " Names, parameter order and field names of the analysed tree are mapped back to the committed baseline vocabulary (vf/baseline.json) where unambiguous; new private helpers are inlined into their callers before the rules run."
         checks.append({
             "property_id": pid,
             "quick_cmd": f"./check {pid} --tier quick",
